@@ -601,7 +601,17 @@ func (cs *ContractSet) LoadFile(path, pkgPath string, trusted bool) error {
 				fc.Name = name
 			}
 			if r.kw == "iface" {
-				cs.Ifaces[key] = fc
+				// interface-method contracts are assumptions of the package that declares them: they apply
+				// only while verifying functions (or lemmas) of that package; contracts from the trusted
+				// specs directory apply everywhere
+				scope := pkgPath
+				if trusted {
+					scope = "*"
+				}
+				if old, ok := cs.Ifaces[scope+"|"+key]; ok {
+					return fmt.Errorf("%s:%d: duplicate iface contract for %s (first at %s:%d)", path, r.line, key, old.File, old.Line)
+				}
+				cs.Ifaces[scope+"|"+key] = fc
 			} else if r.kw == "functype" {
 				cs.FuncTypes[key] = fc
 			} else {
